@@ -265,6 +265,17 @@ def _match(exp, out, env, W):
             return None
         r_ = exp[1](val)
         return None if r_ is None else bool(r_)
+    if kind == "err_kind":
+        if not (isinstance(val, tuple) and val and val[0] in ("Ok", "Err")):
+            return None
+        if val[0] == "Ok":
+            return False
+        e_ = val[1]
+        if isinstance(e_, tuple) and e_ and e_[0] == "struct":
+            k_ = dict(e_[2]).get("kind")
+            if isinstance(k_, tuple) and k_ and k_[0] == "enumv":
+                return k_[2] == exp[1]
+        return None
     if kind in ("is_ok", "is_err"):
         if not (isinstance(val, tuple) and val and val[0] in ("Ok", "Err")):
             return None
